@@ -200,6 +200,24 @@ pub fn check_main(args: &[String], exe_normal: &str) -> i32 {
         std::env::set_var("VCHECK_TRACK_CUR", "1");
         std::env::set_var("ASAN_OPTIONS", "detect_leaks=0:abort_on_error=0:exitcode=99:handle_segv=1");
     }
+    // workers and replays run from a private copy of the binary, so that a rebuild started by somebody else while this check is
+    // running cannot swap the subject underneath it
+    let private_dir = format!("{}/engine/target/run-{}", VERIF_DIR, std::process::id());
+    let exe = {
+        let _ = std::fs::create_dir_all(&private_dir);
+        let dst = format!("{}/vcheck", private_dir);
+        match std::fs::copy(&exe, &dst) {
+            Ok(_) => dst,
+            Err(_) => exe,
+        }
+    };
+    struct Cleanup(String);
+    impl Drop for Cleanup {
+        fn drop(&mut self) {
+            let _ = std::fs::remove_dir_all(&self.0);
+        }
+    }
+    let _cleanup = Cleanup(private_dir.clone());
     let known = load_known();
     let plan: Vec<(Item, usize)> = props::plan(&prop).into_iter().filter_map(|it| { let b = if quick { it.quick } else { Some(it.thorough) }; b.map(|b| (it, b)) }).collect();
     if plan.is_empty() {
@@ -461,8 +479,10 @@ pub fn check_main(args: &[String], exe_normal: &str) -> i32 {
             ),
         ),
     ]);
-    let _ = std::fs::create_dir_all(format!("{}/evidence", VERIF_DIR));
-    std::fs::write(format!("{}/evidence/{}.json", VERIF_DIR, prop), json::to_string(&evidence)).expect("write evidence");
+    // (VCHECK_EVIDENCE_DIR redirects the file for exploratory background runs; the registered commands never set it)
+    let evdir = std::env::var("VCHECK_EVIDENCE_DIR").unwrap_or_else(|_| format!("{}/evidence", VERIF_DIR));
+    let _ = std::fs::create_dir_all(&evdir);
+    std::fs::write(format!("{}/{}.json", evdir, prop), json::to_string(&evidence)).expect("write evidence");
 
     println!(
         "{} {}: instances={} executions={} states={} transitions={} outcomes={} exhaustive={} wall={:.1}s violations={}",
